@@ -764,6 +764,43 @@ func (e *env) runInput(ic inputCase, truth reftar.Tree, bb *builtBlob, v *vset, 
 	})
 }
 
+// minimize drops members of the tar of a violation as long as the same key is still reported
+// under the same build and runtime configuration.
+func (e *env) minimize(viol runner.Violation) runner.Violation {
+	ic, ok := viol.Replay.(inputCase)
+	if !ok || ic.Hist != nil || ic.Rt.Store == "" {
+		return viol
+	}
+	for changed := true; changed && len(ic.Ents) > 0; {
+		changed = false
+		for drop := range ic.Ents {
+			cand := append(append([]ent{}, ic.Ents[:drop]...), ic.Ents[drop+1:]...)
+			truth, tarb, ok := validTar(cand, ic.Build.Chunk)
+			if !ok {
+				continue
+			}
+			bb, err := buildBlob(tarb, ic.Build, firstRegular(truth))
+			if err != nil {
+				continue
+			}
+			tmp := &runner.Result{Outcomes: map[string]int{}}
+			tv := &vset{res: tmp, seen: map[string]bool{}}
+			cic := inputCase{Ents: cand, Build: ic.Build, Rt: ic.Rt}
+			e.runInput(cic, truth, bb, tv, tmp)
+			for _, x := range tmp.Violations {
+				if x.Key == viol.Key {
+					viol, ic, changed = x, cic, true
+					break
+				}
+			}
+			if changed {
+				break
+			}
+		}
+	}
+	return viol
+}
+
 func inputsPart(tier string) runner.Part {
 	al := entryAlphabet(tier)
 	max := 3
@@ -826,6 +863,10 @@ func inputsPart(tier string) runner.Part {
 			}
 			return true
 		})
+		// shrink every violation to a smallest member list that shows the same key under the same configuration
+		for i := range res.Violations {
+			res.Violations[i] = e.minimize(res.Violations[i])
+		}
 		res.Extra = map[string]any{"member_alphabet": len(al), "max_members": max, "build_configs": len(bcs), "runtime_configs": len(rts)}
 		if os.Getenv("C02_MEMSTAT") != "" {
 			var ms runtime.MemStats
@@ -1193,7 +1234,7 @@ func (e *env) exploreHistories(hc histCase, es []ent, depth int, deadline time.T
 	seen := map[string]bool{} // internal states already reached (by a history that is not longer)
 	// run executes one history from a cold world; it returns the reached state ("" = do not extend).
 	run := func(hist []string) (state string) {
-		w, err := e.newWorld(bb, hc.Rt, hc.Rt.Cache)
+		w, err := e.newWorld(bb, hc.Rt, httpCacheKind(hc.Rt))
 		ic.Hist = append([]string{}, hist...)
 		if err != nil {
 			v.add("C02/serve-failed/"+shape(es, cs, truth, "/")+"/"+cfgShape("serve-failed", ic), func() string {
@@ -1283,6 +1324,16 @@ func pathOfOp(op string) string {
 		return "/"
 	}
 	return p
+}
+
+// httpCacheKind: in the history exploration the compressed-blob cache is of the same kind as the
+// chunk cache when the registry chunk is 64 bytes; with 4-byte registry chunks (hundreds of
+// entries per layer) it is the memory cache.
+func httpCacheKind(rt rtCfg) string {
+	if rt.RegChunk >= 64 {
+		return rt.Cache
+	}
+	return "memory"
 }
 
 func shardsFor(cases int) int {
@@ -1379,7 +1430,7 @@ func replay(c *runner.Ctx, raw json.RawMessage) (string, error) {
 	if ic.Hist == nil {
 		e.runInput(ic, truth, bb, v, res)
 	} else {
-		w, err := e.newWorld(bb, ic.Rt, ic.Rt.Cache)
+		w, err := e.newWorld(bb, ic.Rt, httpCacheKind(ic.Rt))
 		if err != nil {
 			return "", err
 		}
@@ -1494,7 +1545,7 @@ func main() {
 			"histories: for 6 representative tars x build configs x runtime configs (thorough: x verify/skip-verify), explicit-state breadth-first search over {LOOKUP, READDIR, GETATTR, LIST/GETXATTR, READLINK, READ on the chunk/EOF boundary grid, Prefetch, BackgroundFetch, drop-chunk-cache} to depth 3 from the cold state (thorough: depth 4 for the 4 quick build configs with verification, depth 3 for the other 12 build configs); every reply and, after every history prefix, the complete view must equal the reference. distinct states = (cached chunks, compressed-cache entries, fetched size, memoised directories, instantiated inodes, one-shot flags); non-trivial = distinct states reached (histories), tars with >= 2 entries (inputs)",
 		Assumptions: []string{
 			"in-memory registry (lib/memreg), perfect server behaviour (deviations are C06's business)",
-			"directory caches use SyncAdd (asynchronous commit would make the reached state timing dependent; the bytes served are the same)",
+			"directory caches use SyncAdd (asynchronous commit would make the reached state timing dependent; the bytes served are the same); the compressed-blob cache is a memory cache in the inputs part and for 4-byte registry chunks, else of the same kind as the chunk cache",
 			"BackgroundTaskManager with a zero silence period; Prefetch/BackgroundFetch run to completion before the next operation (concurrent readers are not explored here)",
 			"names are cleaned as docs/estargz.md and cleanEntryName define; members the reference refuses (hard link to a missing/later member, non-directory parent) are not inputs",
 			"attributes of directories that no member declares, directory sizes and sub-second mtimes are not compared",
